@@ -249,7 +249,12 @@ def ocaml_build(name, extract_v, driver_ml, timeout=600):
            cwd=d, check=True, timeout=timeout + 30)
         # coqc writes the .vo/.glob next to the source; fine.
         mls = sorted(f for f in os.listdir(d) if f.endswith("_model.ml"))
-        glue = open(os.path.join(VERIF, "ocaml", "common", "glue.ml")).read()
+        mli = open(os.path.join(d, mls[0] + "i")).read()
+        glue = ""
+        for blk in re.split(r"(?m)^(?=\(\*@needs )", open(os.path.join(VERIF, "ocaml", "common", "glue.ml")).read()):
+            m = re.match(r"\(\*@needs (\S+?)\*\)", blk)
+            if m is None or m.group(1) == "-" or re.search(r"(?m)^(type|and) %s\b" % m.group(1), mli):
+                glue += blk
         drv = open(driver_ml).read()
         if "byte_of_N" in open(os.path.join(d, mls[0])).read():
             glue += open(os.path.join(VERIF, "ocaml", "common", "glue_byte.ml")).read()
